@@ -52,6 +52,13 @@ func (o asmFullObs) diff(p asmFullObs) string {
 // c16Run: emit ops[:split] into A, Clone, ops[split:] into the clone, Append; compare with direct D.
 // slack is added to the exact remaining capacity of A's buffer (-1: Append must be refused).
 func c16Run(v asmVariant, ops []asmOp, split int, slack int, decoy bool) string {
+	return c16RunResume(v, ops, split, len(ops), 0, slack, decoy)
+}
+
+// c16RunResume: ops[:split] into A, ops[split:resume] into a clone, Append, then the rest ops[resume:]
+// again into A -- directly (mode 0) or through a second Clone/Append (mode 1): an emitter that went
+// through Clone/Append must also BEHAVE like the direct one afterwards.
+func c16RunResume(v asmVariant, ops []asmOp, split, resume, mode int, slack int, decoy bool) string {
 	const roomy = 512
 	d := newRealEmitter(v, roomy)
 	dm := newModelFor(v, roomy)
@@ -64,7 +71,10 @@ func c16Run(v asmVariant, ops []asmOp, split int, slack int, decoy bool) string 
 		pcAfter[i] = d.PC()
 		lenAfter[i+1] = d.Len()
 	}
-	headLen, tailLen := lenAfter[split], d.Len()-lenAfter[split]
+	headLen, tailLen := lenAfter[split], lenAfter[resume]-lenAfter[split]
+	if resume < len(ops) && (slack != 99 || decoy) {
+		return ""
+	}
 	capA := roomy
 	if slack != 99 {
 		capA = headLen + tailLen + slack
@@ -88,7 +98,7 @@ func c16Run(v asmVariant, ops []asmOp, split int, slack int, decoy bool) string 
 	if pn != nil {
 		return fmt.Sprintf("Clone panicked: %v", pn)
 	}
-	for i, op := range ops[split:] {
+	for i, op := range ops[split:resume] {
 		if (applyReal(c, op) != nil) != outcome[split+i] {
 			return fmt.Sprintf("tail call #%d %s: refused=%v in the clone, %v in the direct emitter", split+i, op.name, !outcome[split+i], outcome[split+i])
 		}
@@ -111,7 +121,7 @@ func c16Run(v asmVariant, ops []asmOp, split int, slack int, decoy bool) string 
 			op.model(hm)
 		}
 		c3 := a2.Clone(make([]byte, roomy))
-		for _, op := range ops[split:] {
+		for _, op := range ops[split:resume] {
 			applyReal(c3, op)
 		}
 		for _, op := range c16DecoyOps() {
@@ -145,7 +155,34 @@ func c16Run(v asmVariant, ops []asmOp, split int, slack int, decoy bool) string 
 	if pn != nil {
 		return fmt.Sprintf("Append panicked: %v (tail %d bytes, remaining %d)", pn, tailLen, capA-headLen)
 	}
+	if resume < len(ops) {
+		// keep emitting after the Append
+		tgt := a
+		if mode == 1 {
+			tgt = a.Clone(make([]byte, roomy))
+		}
+		for i, op := range ops[resume:] {
+			if (applyReal(tgt, op) != nil) != outcome[resume+i] {
+				return fmt.Sprintf("call #%d %s issued after the Append (mode %d): refused=%v, %v in the direct emitter", resume+i, op.name, mode, !outcome[resume+i], outcome[resume+i])
+			}
+			if tgt.PC() != pcAfter[resume+i] {
+				return fmt.Sprintf("after call #%d %s issued after the Append (mode %d) PC is $%06x, the direct emitter's is $%06x", resume+i, op.name, mode, tgt.PC(), pcAfter[resume+i])
+			}
+		}
+		if mode == 1 {
+			func() {
+				defer func() { pn = recover() }()
+				a.Append(tgt)
+			}()
+			if pn != nil {
+				return fmt.Sprintf("second Append panicked: %v", pn)
+			}
+		}
+	}
 	if df := observeFull(a, v.Listing).diff(observeFull(d, v.Listing)); df != "" {
+		if resume < len(ops) {
+			return fmt.Sprintf("after Append and %d further calls (mode %d) the emitter differs from the direct one: %s", len(ops)-resume, mode, df)
+		}
 		return "after Append the emitter differs from the direct one: " + df
 	}
 	// Finalize outcome and finalized bytes
@@ -192,6 +229,13 @@ func replayC16(raw json.RawMessage) (string, error) {
 			}
 		}
 	}
+	for resume := h.Split; resume < len(ops); resume++ {
+		for mode := 0; mode <= 1; mode++ {
+			if d := c16RunResume(h.Variant, ops, h.Split, resume, mode, 99, false); d != "" {
+				return fmt.Sprintf("%+v %v split %d resume %d mode %d: %s", h.Variant, h.Ops, h.Split, resume, mode, d), fmt.Errorf("unexplained:clone-append")
+			}
+		}
+	}
 	return "Clone/Append is indistinguishable from direct emission for this history and split", nil
 }
 
@@ -221,6 +265,17 @@ func runC16(r *report.Run) {
 						}
 					}
 				}
+				if withSlack {
+					// stage 1 only: emission continues after the Append, directly or through a second clone
+					for resume := split; resume < len(ops); resume++ {
+						for mode := 0; mode <= 1; mode++ {
+							n++
+							if d := c16RunResume(v, ops, split, resume, mode, 99, false); d != "" {
+								return "unexplained:clone-append", fmt.Sprintf("%+v %v split %d resume %d mode %d: %s", v, historyNames(al, idx), split, resume, mode, d), n, &asmHistory{Variant: v, Ops: historyNames(al, idx), Capacity: 512, Split: split}
+							}
+						}
+					}
+				}
 			}
 			return "", "", n, nil
 		}
@@ -231,10 +286,11 @@ func runC16(r *report.Run) {
 	if thorough {
 		d1, d2 = 4, 5
 	}
-	hist, trans, st := asmHistorySearch(d1, variants, mk(true), r, 512)
+	stage1 := append(append([]asmVariant(nil), variants...), asmVariantsPre()...)
+	hist, trans, st := asmHistorySearch(d1, stage1, mk(true), r, 512)
 	h2, t2, s2 := asmHistorySearch(d2, deep, mk(false), r, 512)
 	hist, trans, st = hist+h2, trans+t2, st+s2
-	depth := fmt.Sprintf("%d (all %d variants, with Append capacity edges) and %d (2 variants)", d1, len(variants), d2)
+	depth := fmt.Sprintf("%d (all %d variants, with Append capacity edges) and %d (2 variants)", d1, len(stage1), d2)
 	r.Set("states", st)
 	r.Set("transitions", trans)
 	r.Set("traces_validated_against_impl", st)
@@ -242,8 +298,8 @@ func runC16(r *report.Run) {
 	r.Set("distinct_nontrivial", st-hist)
 	r.Set("histories", hist)
 	r.Set("history_x_split_x_capacity_cases", st)
-	r.Set("bounds", map[string]interface{}{"history_depth": depth, "alphabet": len(asmAlphabet()), "constructor_variants": len(variants), "splits": "every split point 0..n", "append_capacity_slack": []int{-1, 0, 1}})
-	r.Set("rule", "every call sequence up to the depth x every split point x every constructor variant: head into A, A.Clone, tail into the clone, A.Append(clone), compared with a direct emitter on Bytes/Len/PC/Flags/GetLabel/text and hex listings/Finalize outcome and finalized bytes; A is compared with its own snapshot before Append; Append with remaining capacity exactly tail-1 must be refused leaving A unchanged, tail and tail+1 must succeed; non-trivial = split strictly inside or capacity-edge cases")
+	r.Set("bounds", map[string]interface{}{"history_depth": depth, "alphabet": len(asmAlphabet()), "constructor_variants": len(stage1), "splits": "every split point 0..n; at the first depth also every resume point (clone gets ops[split:resume], the rest is emitted after the Append, directly or through a second Clone/Append)", "append_capacity_slack": []int{-1, 0, 1}})
+	r.Set("rule", "every call sequence up to the depth x every split point x every constructor variant: head into A, A.Clone, tail into the clone, A.Append(clone), compared with a direct emitter on Bytes/Len/PC/Flags/GetLabel/text and hex listings/Finalize outcome and finalized bytes; A is compared with its own snapshot before Append; at the first depth the emitter keeps emitting after the Append (every resume point, directly or through a second Clone/Append) and must still equal the direct one; Append with remaining capacity exactly tail-1 must be refused leaving A unchanged, tail and tail+1 must succeed; non-trivial = split strictly inside or capacity-edge cases")
 	r.Sample(asmHistory{Variant: variants[2], Ops: []string{"BNE(a)", "Label(b)", "JMP_abs(b)", "Label(a)"}, Capacity: 512, Split: 2})
 	r.Assume("Finalize error choice depends on Go map order: both errors must be legitimate, they need not be equal")
 }
